@@ -69,7 +69,7 @@ func (w *world) project(parent *chain.BlockSummary, blk *block.Block) (map[strin
 		unknown = true
 	}
 	cfg := map[string]any{"vip191": num >= fc.VIP191, "vip214": num >= fc.VIP214, "finality": num >= fc.FINALITY,
-		"galactica": num >= fc.GALACTICA, "gfirst": num == fc.GALACTICA, "pos": pos, "nprop": nprop}
+		"galactica": num >= fc.GALACTICA, "gfirst": num == fc.GALACTICA, "pos": pos, "nprop": nprop, "blocklist": num >= fc.BLOCKLIST}
 
 	hp := map[string]any{"ts": limbs(h.Timestamp()), "gl": limbs(h.GasLimit()), "gu": limbs(h.GasUsed()), "score": limbs(h.TotalScore()),
 		"feat": clip(int(h.TxsFeatures()), 1<<20), "siglen": clip(len(h.Signature()), 1<<20), "com": h.COM(),
@@ -132,9 +132,11 @@ func (w *world) project(parent *chain.BlockSummary, blk *block.Block) (map[strin
 		if t.Type() == tx.TypeDynamicFee {
 			e["typ"] = "dyn"
 		}
-		_, oerr := t.Origin()
-		_, derr := t.Delegator()
+		org, oerr := t.Origin()
+		dlg, derr := t.Delegator()
 		e["origin"] = oerr == nil && derr == nil
+		// the driver's own list: one dev account is on the (mocked) blocklist
+		e["blocked"] = (oerr == nil && org == w.addr(blockedDev)) || (derr == nil && dlg != nil && *dlg == w.addr(blockedDev))
 		e["unused"] = reservedUnused(t)
 		id := t.ID()
 		_, dup := seen[id]
